@@ -216,7 +216,11 @@ func ruleP5(c *Ctx) {
 		_ = ix
 		n++
 		loop := f.enclosingLoop(as)
-		call, isCall := ast.Unparen(as.Rhs[0]).(*ast.CallExpr)
+		rhs := resolveLocal(f, as.Rhs[0])
+		call, isCall := ast.Unparen(rhs).(*ast.CallExpr)
+		if isCall && loop != nil && !p.inside(call, loop) {
+			isCall = false // bound outside the loop: one object for every slot
+		}
 		switch {
 		case loop == nil:
 			bad = "an output slot is filled outside a loop"
